@@ -677,3 +677,110 @@ def _where(u, pm, off):
         if t.is_bytes() and p <= off < p + len(t.b):
             return "orig" if t.origin == "orig" else ("pad" if t.origin == "pad" else "patch")
     return "none"
+
+
+# ------------------------------------------------------------------ C06
+
+
+def check_c06(mt, sess):
+    from .driver import learn_functions
+
+    world, model = mt.world, mt.model
+    m = world.module
+    learn_functions(world, model)
+    addr = mt.tok_addr()
+    fb = m.aux_data.get("functionBlocks")
+    fe = m.aux_data.get("functionEntries")
+    fn = m.aux_data.get("functionNames")
+    if fb is None or fe is None:
+        return
+    blocks_of = {}
+    for fu, bs in fb.data.items():
+        for b in bs:
+            blocks_of.setdefault(b.uuid, []).append(fu)
+            if not isinstance(b, gtirb.CodeBlock):
+                raise core.Violation("C06", "attribution", {"what": "a data block is listed in functionBlocks"}, {"kind": "data-in-function"})
+            if b.module is not m or b.byte_interval is None:
+                raise core.Violation("C06", "ghost-function", {"what": "functionBlocks lists a block that left the module"}, {"kind": "dead-block"})
+    for bu, fus in blocks_of.items():
+        if len(fus) > 1:
+            raise core.Violation("C06", "block-in-two-functions", {"functions": sorted(world.func_ids.get(f, str(f)) for f in fus)}, {"kind": "two"})
+    for fu, bs in fe.data.items():
+        for b in bs:
+            if fu not in fb.data or b not in fb.data[fu]:
+                raise core.Violation("C06", "entry-not-in-blocks", {"function": world.func_ids.get(fu, str(fu))}, {"kind": "entry"})
+    # attribution per instruction
+    real_func_at = {}
+    for b in m.code_blocks:
+        if b.size and b.address is not None:
+            fus = blocks_of.get(b.uuid, [])
+            real_func_at[(b.address, b.address + b.size)] = world.func_ids.get(fus[0], "?" + str(fus[0])[:8]) if fus else None
+    ranges = sorted(real_func_at)
+    import bisect
+
+    starts = [r[0] for r in ranges]
+    live_funcs = set()
+    for s, u in model.units():
+        for t in u.toks:
+            if t.kind != "insn" or t.id not in addr:
+                continue
+            a = addr[t.id]
+            i = bisect.bisect_right(starts, a) - 1
+            if i < 0 or not (ranges[i][0] <= a < ranges[i][1]):
+                raise core.Violation("C06", "attribution", {"what": "instruction is not inside any code block", "token": t.id, "address": a}, {"kind": "no-block"})
+            rf = real_func_at[ranges[i]]
+            want = t.func if t.origin != "pad" else None
+            if want is not None:
+                live_funcs.add(want)
+            if rf != want:
+                raise core.Violation(
+                    "C06",
+                    "attribution",
+                    {"token": t.id, "address": a, "expected_function": want, "real_function": rf},
+                    {"origin": "orig" if t.origin == "orig" else ("pad" if t.origin == "pad" else "patch"), "expected_none": want is None, "real_none": rf is None},
+                )
+    # entries: the block at every entry marker, and nothing else
+    want_entries = set()
+    optional_entries = set()
+    for sname in model.section_order:
+        pend = None
+        pend_opt = False
+        for u in model.sections[sname]:
+            for t in u.toks:
+                if t.kind == "entry":
+                    pend = t.func
+                    pend_opt = t.slid
+                elif t.is_bytes() and t.origin == "pad":
+                    continue
+                elif t.is_bytes():
+                    if pend is not None and t.kind == "insn" and t.func == pend and t.id in addr:
+                        (optional_entries if pend_opt else want_entries).add((pend, addr[t.id]))
+                    pend = None
+    real_entries = set()
+    for fu, bs in fe.data.items():
+        for b in bs:
+            if b.size and b.address is not None:
+                real_entries.add((world.func_ids.get(fu, "?" + str(fu)[:8]), b.address))
+    if not (want_entries <= real_entries <= (want_entries | optional_entries)):
+        miss = sorted(want_entries - real_entries, key=str)
+        spur = sorted(real_entries - want_entries - optional_entries, key=str)
+        raise core.Violation("C06", "wrong-promotion" if spur else "entry-not-in-blocks", {"missing_entries": miss, "spurious_entries": spur}, {"kind": "missing" if miss and not spur else ("spurious" if spur and not miss else "both")})
+    # functions that lost all their blocks disappear from all three tables
+    for fu in set(fb.data) | set(fe.data) | set(fn.data if fn is not None else ()):
+        fid = world.func_ids.get(fu)
+        has_sized = any(b.size for b in fb.data.get(fu, ()))
+        if fid is not None and fid not in live_funcs and has_sized:
+            raise core.Violation("C06", "ghost-function", {"function": fid}, {"kind": "has-blocks"})
+        if fid is not None and fid not in live_funcs and not any(True for _ in fb.data.get(fu, ())):
+            raise core.Violation("C06", "ghost-function", {"function": fid, "what": "function without blocks is still listed"}, {"kind": "listed"})
+    by_fid = {world.func_ids.get(fu): fu for fu in fb.data}
+    for fid in sorted(live_funcs):
+        fu = by_fid.get(fid)
+        if fu is None:
+            raise core.Violation("C06", "inserted-function-missing" if fid.startswith("I:") else "attribution", {"function": fid, "what": "not in functionBlocks"}, {"kind": "missing-table"})
+        if fn is not None:
+            sym = fn.data.get(fu)
+            if sym is None or sym.name != model.funcs[fid]["name"]:
+                raise core.Violation("C06", "inserted-function-missing" if fid.startswith("I:") else "attribution", {"function": fid, "what": "functionNames entry missing or wrong", "name": getattr(sym, "name", None)}, {"kind": "name"})
+        if fid.startswith("I:") and not any(f == fid for f, _ in real_entries):
+            raise core.Violation("C06", "inserted-function-missing", {"function": fid, "what": "no entry"}, {"kind": "entry"})
